@@ -77,6 +77,27 @@ def py_format(v, spec):
         return ("ERR", str(e)[:80])
 
 
+def shortest_repr_tie(v, py_text, rs_text):
+    """Both texts are the same apart from one digit of repr(|v|) that differs by one, and both digit strings are
+    shortest round-trip renderings of v (the double lies between them; Python picks the nearer / even one)."""
+    r = repr(abs(v))
+    j = py_text.find(r)
+    if j < 0 or len(py_text) != len(rs_text):
+        return False
+    diff = [i for i in range(len(py_text)) if py_text[i] != rs_text[i]]
+    if len(diff) != 1 or not (j <= diff[0] < j + len(r)):
+        return False
+    i = diff[0]
+    a, b = py_text[i], rs_text[i]
+    if not (a.isdigit() and b.isdigit() and abs(int(a) - int(b)) == 1):
+        return False
+    alt = r[:i - j] + b + r[i - j + 1:]
+    try:
+        return float(alt) == abs(v)
+    except ValueError:
+        return False
+
+
 def fields(spec):
     m = SPEC_RE.match(spec)
     return m.groupdict() if m else None
@@ -95,34 +116,46 @@ def classify(kind, v, spec, py, rs):
     isfloat = kind == "float"
     special = isfloat and (v != v or v in (float("inf"), float("-inf")))
     if f["z"]:
-        return "z-option-unknown"
+        # exactly: Python accepts the spec, the crate rejects it as a whole
+        return "z-option-unknown" if (pk == "OK" and rs == ("ERR", "InvalidFormatSpecifier")) else None
     if rk == "PANIC":
-        if grp and (t in ("e", "E", "g", "G", "%") or (t is None and isfloat)) and "Separators only valid" not in rs[1] + "x" * 0:
-            pass
+        if "Separators only valid for numbers!" not in rs[1]:
+            return None
         if grp and isfloat and t in ("e", "E", "g", "G", "%", None, "n"):
             return "grouping-with-exponent-general-percent-panics"
         if grp and kind in ("int", "bool") and t in ("e", "E", "g", "G", "%", "n"):
             return "grouping-with-exponent-general-percent-panics"
         return None
+    if t == "c" and kind == "int" and 0xD800 <= v <= 0xDFFF and pk == "OK" and rs == ("ERR", "CodeNotInRange"):
+        return "char-conversion-of-surrogate-code-point-is-an-error"
+    if isfloat and t is None and f["prec"] is None and not grp and pk == "OK" and rk == "OK" and shortest_repr_tie(v, py[1], rs[1]):
+        return "float-no-type-shortest-repr-tie-broken-differently"
     if kind == "str":
         if pk == "ERR" and rk == "OK" and (f["sign"] or f["alt"] or f["align"] == "=" or f["zero"] or grp):
             return "string-spec-sign-alt-equals-align-not-rejected"
         if pk == "OK" and rk == "OK" and f["zero"] and not f["align"]:
-            return "string-zero-flag-padding-differs"
-    if kind == "bool" and t is None and spec != "":
+            # exactly: the crate pads on the left (as for numbers) where Python pads a string on the right
+            model = format(v, "0>" + (f["width"] or "") + ("." + f["prec"] if f["prec"] is not None else ""))
+            return "string-zero-flag-padding-differs" if rs[1] == model else None
+    if kind == "bool" and t is None and spec != "" and rs == ("OK", "True" if v else "False"):
         return "bool-without-type-formatted-as-text-not-int"
     if t == "c":
         if f["prec"] is not None or f["sign"] or f["alt"] or grp or kind != "int" or (isinstance(v, int) and not (0 <= v < 0x110000)) or f["zero"] or f["align"] == "=" or f["width"]:
             return "char-conversion-validation-and-padding"
     if grp and pk == "OK" and rk == "OK" and kind in ("int", "float", "bool"):
-        if f["width"] and not f["zero"] and f["align"] != "=":
-            return "grouping-applies-width-as-zero-padding"
         if special:
             return "grouping-applies-width-as-zero-padding"
         if isfloat and t is None:
             return "grouping-no-type-float-exponent-form"
-        if f["zero"] or f["align"] == "=":
-            return "grouping-zero-padding-width-accounting"
+        # exactly: with a grouping option the crate pads to the width with grouped zeros whether or not the zero flag /
+        # '=' alignment was given, i.e. it prints what Python prints for the same spec with fill/align replaced by '0'
+        try:
+            model = format(v, (f["sign"] or "") + ("#" if f["alt"] else "") + "0" + (f["width"] or "") + grp + ("." + f["prec"] if f["prec"] is not None else "") + (t or ""))
+        except (ValueError, TypeError, OverflowError):
+            model = None
+        if rs[1] == model:
+            return "grouping-applies-width-as-zero-padding" if (f["width"] and not f["zero"] and f["align"] != "=") else "grouping-zero-padding-width-accounting"
+        return None
     if isfloat and t is None and pk == "OK" and rk == "OK" and (f["prec"] is not None or f["alt"]):
         return "float-no-type-with-precision-or-alt"
     if isfloat and special and (f["zero"] or f["align"] == "=" or f["alt"] or f["prec"] is not None):
@@ -181,17 +214,33 @@ def run(res):
     thorough = res.tier == "thorough"
     bins = core.build([VARIANT])
     rng = core.rng_for(res.seed, "c18")
-    specs = gen_specs(rng, 60000 if thorough else 7000) + malformed(rng, 8000 if thorough else 1500)
+    specs = gen_specs(rng, 900000 if thorough else 7000) + malformed(rng, 250000 if thorough else 1500)
     items = []
     specs = [s for s in specs if sane(s)]
+    def rand_int():
+        m = rng.choice([1, 2, 3, 5, 8, 16, 31, 32, 33, 63, 64, 65, 100, 200])
+        v = rng.getrandbits(m)
+        return -v if rng.random() < .4 else v
+
+    def rand_float():
+        k = rng.random()
+        if k < .4:   # any bit pattern (subnormals, huge, tiny, NaN payloads)
+            return struct.unpack("<d", struct.pack("<Q", rng.getrandbits(64)))[0]
+        if k < .7:   # short decimals around rounding boundaries
+            return float("%s%d.%s5" % (rng.choice(["", "-"]), rng.randrange(0, 10 ** rng.randint(0, 7)), "".join(rng.choice("0123456789") for _ in range(rng.randint(0, 6)))))
+        return float("%s%de%d" % (rng.choice(["", "-"]), rng.randrange(1, 10 ** rng.randint(1, 17)), rng.randint(-30, 30)))
+
+    def rand_str():
+        return "".join(rng.choice("ab é日𝄞\t0{") for _ in range(rng.randint(0, 12)))
     for s in specs:
         k = rng.random()
+        wild = thorough and rng.random() < .5
         if k < .4:
-            items.append((s, "int", rng.choice(INTS)))
+            items.append((s, "int", rand_int() if wild else rng.choice(INTS)))
         elif k < .8:
-            items.append((s, "float", rng.choice(FLOATS)))
+            items.append((s, "float", rand_float() if wild else rng.choice(FLOATS)))
         elif k < .93:
-            items.append((s, "str", rng.choice(STRS)))
+            items.append((s, "str", rand_str() if wild else rng.choice(STRS)))
         else:
             items.append((s, "bool", rng.random() < .5))
     # a small exhaustive core grid
